@@ -138,7 +138,7 @@ def run_case(case):
             enc = torch.nn.Linear(ctxk, 2 * D)
             with torch.no_grad():
                 enc.weight.mul_(0.5)
-                if case.get("narrow_base"):
+                if case.get("narrow_base") and what != "mass2d":     # (the iterated 2-D rule has no spike hunting: wide bases only)
                     enc.bias[D:] -= case["narrow_base"]      # context rows that encode small base standard deviations (e^-5 .. e^-9)
             base = dist.ConditionalDiagonalNormal([D], context_encoder=enc)
             with torch.no_grad():
